@@ -6,7 +6,7 @@ from typing import Any, Dict, List, Optional, Set, Tuple
 
 from ..core import AnalysisError, Report
 from ..names import fixed_text_of_fstring, identifier_alphabet, label_table_writers
-from ..pyfacts import Repo, calls, dotted, norm, walk_no_nested
+from ..pyfacts import Repo, cc, cn, inline_pure_temps, calls, dotted, norm, walk_no_nested
 from .c02 import _isinstance_chain
 
 PRE = 'flipjump/assembler/preprocessor.py'
@@ -17,7 +17,7 @@ ASM = 'flipjump/assembler/assembler.py'
 
 
 def _branch(repo: Repo, types: Set[str]) -> List[ast.stmt]:
-    rm = repo.func(PRE, 'resolve_macro_aux')
+    rm = inline_pure_temps(repo.func(PRE, 'resolve_macro_aux'))      # a hoisted prefix local reads like the expression it names
     chain, _ = _isinstance_chain(rm, 'op')
     b = [body for t, body in chain if t == types]
     if not b:
@@ -272,7 +272,7 @@ def synthetic_families(repo: Repo) -> List[Tuple[str, str, str, ast.AST]]:
     for c in calls(gp):
         if dotted(c.func) == 'Expr' and c.args and isinstance(c.args[0], ast.JoinedStr):
             out.append(('local-label', PRE, fixed_text_of_fstring(c.args[0], repo, PRE), c))
-    rm = repo.func(PRE, 'resolve_macro_aux')
+    rm = inline_pure_temps(repo.func(PRE, 'resolve_macro_aux'))      # a hoisted prefix local reads like the expression it names
     for st in ast.walk(rm):
         if isinstance(st, ast.Assign) and norm(st.targets[0]) == 'hygienic_iterator':
             out.append(('rep-iterator', PRE, fixed_text_of_fstring(st.value, repo, PRE), st))
@@ -315,7 +315,7 @@ def rule_prefix(rep: Report, repo: Repo) -> None:
     ss = repo.func(OPS, 'CodePosition.short_str')
     rets = [norm(r.value) for r in ast.walk(ss) if isinstance(r, ast.Return)]
     vf = repo.func(PARSER, 'validate_current_file')
-    uniq = any(isinstance(n, ast.If) and norm(n.test) == 'curr_file_short_name in files_seen' and isinstance(n.body[0], ast.Raise) for n in ast.walk(vf))
+    uniq = any(isinstance(n, ast.If) and cn(n.test) == cc('curr_file_short_name in files_seen') and isinstance(n.body[0], ast.Raise) for n in ast.walk(vf))
     rep.check(rets == ["f'{self.file_short_name}:l{self.line}'"] and uniq, 'C03.PREFIX', 'position+unique-short-names',
               f'{rets}; short names unique={uniq}', f'{OPS}:{ss.lineno}')
 
